@@ -158,6 +158,11 @@ func NewRunner(w *world.World, dir string, specs []world.NodeSpec, envs [][]stri
 		r.Scout = rep
 	}
 	r.TimeMs = r.Reps[0].Box.Boot.BlockTime
+	// the genesis state InitChain wrote (committed with block 1) is the
+	// "previous state" of block 1
+	if resp, err := r.Reps[0].Box.Do(proto.Cmd{Op: "dump", Full: true}); err == nil {
+		r.State = State{}.Apply(resp.Dump, true)
+	}
 	return r, nil
 }
 
